@@ -248,4 +248,137 @@ theorem filterMap_zipIdx_ids {α} (f : α × Nat → Option CalItem) (hf : ∀ a
         · have := ih1 x hx; omega
       · have := ih1 z hz; omega
 
+/-! ### the tree written under omit patterns -/
+
+def HasPath (st : List OutNode) (p : List Char) : Prop := ∃ n ∈ st, n.path = p
+
+theorem ensureGroup_explicit (st : List OutNode) (g p : List Char) :
+    (⟨p, true⟩ : OutNode) ∈ ensureGroup st g ↔ (⟨p, true⟩ : OutNode) ∈ st := by
+  unfold ensureGroup
+  split
+  · rfl
+  · simp
+
+theorem ensureGroup_path (st : List OutNode) (g p : List Char) :
+    HasPath (ensureGroup st g) p ↔ HasPath st p ∨ p = g := by
+  unfold ensureGroup HasPath
+  split
+  · rename_i h
+    constructor
+    · intro h'; exact Or.inl h'
+    · rintro (h' | h')
+      · exact h'
+      · subst h'
+        obtain ⟨n, hn, hp⟩ := List.any_eq_true.mp h
+        exact ⟨n, hn, by simpa using hp⟩
+  · constructor
+    · rintro ⟨n, hn, hp⟩
+      rcases List.mem_append.mp hn with h1 | h1
+      · exact Or.inl ⟨n, h1, hp⟩
+      · simp only [List.mem_singleton] at h1
+        subst h1; exact Or.inr hp.symm
+    · rintro (⟨n, hn, hp⟩ | h')
+      · exact ⟨n, List.mem_append_left _ hn, hp⟩
+      · exact ⟨⟨g, false⟩, by simp, h'.symm⟩
+
+theorem foldl_ensure_explicit (gs : List (List Char)) : ∀ (st : List OutNode) (p : List Char),
+    (⟨p, true⟩ : OutNode) ∈ gs.foldl ensureGroup st ↔ (⟨p, true⟩ : OutNode) ∈ st := by
+  induction gs with
+  | nil => intro st p; rfl
+  | cons g gs ih => intro st p; rw [List.foldl_cons, ih, ensureGroup_explicit]
+
+theorem foldl_ensure_path (gs : List (List Char)) : ∀ (st : List OutNode) (p : List Char),
+    HasPath (gs.foldl ensureGroup st) p ↔ HasPath st p ∨ p ∈ gs := by
+  induction gs with
+  | nil => intro st p; simp
+  | cons g gs ih =>
+    intro st p
+    rw [List.foldl_cons, ih, ensureGroup_path, List.mem_cons, or_assoc]
+
+theorem writeNode_explicit (st : List OutNode) (q p : List Char) :
+    (⟨p, true⟩ : OutNode) ∈ writeNode st q ↔ (⟨p, true⟩ : OutNode) ∈ st ∨ p = q := by
+  unfold writeNode
+  rw [List.mem_append, foldl_ensure_explicit]
+  simp
+
+theorem writeNode_path (st : List OutNode) (q p : List Char) :
+    HasPath (writeNode st q) p ↔ HasPath st p ∨ p = q ∨ p ∈ ancestors q := by
+  unfold writeNode
+  constructor
+  · rintro ⟨n, hn, hp⟩
+    rcases List.mem_append.mp hn with h1 | h1
+    · rcases (foldl_ensure_path _ st p).mp ⟨n, h1, hp⟩ with h2 | h2
+      · exact Or.inl h2
+      · exact Or.inr (Or.inr h2)
+    · simp only [List.mem_singleton] at h1
+      subst h1; exact Or.inr (Or.inl hp.symm)
+  · rintro (h | h | h)
+    · obtain ⟨n, hn, hp⟩ := (foldl_ensure_path (ancestors q) st p).mpr (Or.inl h)
+      exact ⟨n, List.mem_append_left _ hn, hp⟩
+    · exact ⟨⟨q, true⟩, by simp, h.symm⟩
+    · obtain ⟨n, hn, hp⟩ := (foldl_ensure_path (ancestors q) st p).mpr (Or.inr h)
+      exact ⟨n, List.mem_append_left _ hn, hp⟩
+
+theorem writeOmit_aux_explicit (pats : List (List Pat)) (nodes : List (List Char)) : ∀ (st : List OutNode) (p : List Char),
+    (⟨p, true⟩ : OutNode) ∈ nodes.foldl (fun st p => if exported pats p then writeNode st p else st) st ↔
+      (⟨p, true⟩ : OutNode) ∈ st ∨ (p ∈ nodes ∧ exported pats p = true) := by
+  induction nodes with
+  | nil => intro st p; simp
+  | cons q qs ih =>
+    intro st p
+    rw [List.foldl_cons, ih]
+    by_cases hq : exported pats q = true
+    · rw [if_pos hq, writeNode_explicit]
+      constructor
+      · rintro ((h | h) | h)
+        · exact Or.inl h
+        · subst h; exact Or.inr ⟨List.mem_cons_self, hq⟩
+        · exact Or.inr ⟨List.mem_cons_of_mem _ h.1, h.2⟩
+      · rintro (h | ⟨h1, h2⟩)
+        · exact Or.inl (Or.inl h)
+        · rcases List.mem_cons.mp h1 with h | h
+          · exact Or.inl (Or.inr h)
+          · exact Or.inr ⟨h, h2⟩
+    · rw [if_neg hq]
+      constructor
+      · rintro (h | h)
+        · exact Or.inl h
+        · exact Or.inr ⟨List.mem_cons_of_mem _ h.1, h.2⟩
+      · rintro (h | ⟨h1, h2⟩)
+        · exact Or.inl h
+        · rcases List.mem_cons.mp h1 with h | h
+          · subst h; exact absurd h2 hq
+          · exact Or.inr ⟨h, h2⟩
+
+theorem writeOmit_aux_path (pats : List (List Pat)) (nodes : List (List Char)) : ∀ (st : List OutNode) (p : List Char),
+    HasPath (nodes.foldl (fun st p => if exported pats p then writeNode st p else st) st) p ↔
+      HasPath st p ∨ ∃ q ∈ nodes, exported pats q = true ∧ (p = q ∨ p ∈ ancestors q) := by
+  induction nodes with
+  | nil => intro st p; simp
+  | cons q qs ih =>
+    intro st p
+    rw [List.foldl_cons, ih]
+    by_cases hq : exported pats q = true
+    · rw [if_pos hq, writeNode_path]
+      constructor
+      · rintro ((h | h) | ⟨r, hr, h⟩)
+        · exact Or.inl h
+        · exact Or.inr ⟨q, List.mem_cons_self, hq, h⟩
+        · exact Or.inr ⟨r, List.mem_cons_of_mem _ hr, h⟩
+      · rintro (h | ⟨r, hr, h⟩)
+        · exact Or.inl (Or.inl h)
+        · rcases List.mem_cons.mp hr with e | e
+          · subst e; exact Or.inl (Or.inr h.2)
+          · exact Or.inr ⟨r, e, h⟩
+    · rw [if_neg hq]
+      constructor
+      · rintro (h | ⟨r, hr, h⟩)
+        · exact Or.inl h
+        · exact Or.inr ⟨r, List.mem_cons_of_mem _ hr, h⟩
+      · rintro (h | ⟨r, hr, h⟩)
+        · exact Or.inl h
+        · rcases List.mem_cons.mp hr with e | e
+          · subst e; exact absurd h.1 hq
+          · exact Or.inr ⟨r, e, h⟩
+
 end Verif.C05
